@@ -113,3 +113,12 @@ pub trait GLWENormalize<BE: Backend> {
             forall|i: int, jj: int| 0 <= i < old(res).gm_cols() && 0 <= jj < old(res).gm_size() ==> depl(#[trigger] final(res).gm_limb(i, jj)) == znx_col(a.gref().data, i),
             glwe_radix_ok(final(res).gref());
 }
+impl<'a> GLWEToRef for GLWE<&'a [u8]> {
+    open spec fn gref(&self) -> GLWE<&[u8]> { *self }
+    #[verifier::external_body] fn to_ref(&self) -> (r: GLWE<&[u8]>) { unimplemented!() }
+}
+// a mutable view read as an operand (`a_conv.data()`): the same bytes
+impl<'a> VecZnxToRef for VecZnx<&'a mut [u8]> {
+    open spec fn sref(&self) -> VecZnx<&[u8]> { VecZnx { data: ref_of(self.data@), n: self.n, cols: self.cols, size: self.size, max_size: self.max_size } }
+    #[verifier::external_body] fn to_ref(&self) -> (r: VecZnx<&[u8]>) { unimplemented!() }
+}
